@@ -327,6 +327,10 @@ def check_snr(run, A):
 
 def check(run):
     A = run.A
+    from ..opt import check_optional_truthiness, check_params_reach, check_forwarding
+    check_forwarding(run, A, ('pb_bss.evaluation.',))
+    check_params_reach(run, A, ('pb_bss.evaluation.',))
+    check_optional_truthiness(run, A, ('pb_bss.evaluation.',))
     run.explanation = (
         'Structural identities of the metrics decided on the source: both SXR functions compute _sxr(S, I+N), _sxr(S, I), _sxr(S, N) with the identical S and the first denominator being '
         'the sum of the other two (power decomposition for a pure ratio _sxr); own-source exclusion of the interference; complete enumeration and arg-MAX selection of the outputs; the '
